@@ -11,6 +11,11 @@ add("C04/enum/member-value-not-string",
     r"frame=internal/ast/compiler\.\(\*(PrefixEnumValues|SanitizeEnumMemberNames)\)\.\w+ msg=interface conversion: interface \{\} is .*not string",
     "./check C04 --replay corpus:corpus/jsonschema-mixed-enum",
     "small safe fix: comma-ok assertions in enumMemberNameFromValue / sanitizeEnumMember")
+add("C04/enum/member-value-uncomparable",
+    "enum typed `string` whose member value is an array or an object (OpenAPI `type: string, enum: [[\"x\"]]`; same root as member-value-not-string): EnumType.MemberForValue compares the member values with `==`, which panics at run time for []interface{} / map values (reached from the TypeScript / Java / Python default-value formatters)",
+    r"frame=internal/ast\.EnumType\.MemberForValue\S* msg=runtime error: comparing uncomparable type",
+    "./check C04 --replay corpus:corpus/openapi-enum-array-member",
+    "small safe fix: reject non-scalar enum values in the OpenAPI / JSON Schema walkEnum (error), or compare with reflect.DeepEqual")
 add("C04/enum/empty-member-name",
     "enum member with an empty name (`enum: [1, \"\"]`: non-string first value -> int64 members named by %v; YAML-defined enums): member.Name[0] -> index out of range in PrefixEnumValues / SanitizeEnumMemberNames",
     r"frame=internal/ast/compiler\.\(\*(PrefixEnumValues|SanitizeEnumMemberNames)\)\.\w+ msg=runtime error: index out of range",
